@@ -286,6 +286,9 @@ struct World {
     written: Vec<VecDeque<(usize, [u8; CHUNK], usize)>>,
     /// number of the line being executed
     line_no: usize,
+    /// buffers of receives that `push` handed back with an error: (op, slot, buffer filled with a canary). The caller owns
+    /// them again, so the kernel must never write into them
+    kept: Vec<(usize, usize, Buf)>,
     /// number of chunks ever written to a slot
     written_total: Vec<usize>,
     /// polling driver: (op, ordinal of the chunk it received) for queued receives of a slot, in the order observed
@@ -343,6 +346,7 @@ impl World {
             written: (0..8).map(|_| VecDeque::new()).collect(),
             written_total: vec![0; 8],
             line_no: 0,
+            kept: vec![],
             delivered: (0..8).map(|_| vec![]).collect(),
             ever_ready: vec![false; 8],
             seq: 0,
@@ -474,6 +478,27 @@ impl World {
             }
             self.note_submit();
             self.note_drain();
+        }
+    }
+
+    /// an op that `push` handed back (`Ready(Err(..), op)`) belongs to the caller again: the OS must not know it
+    fn check_kept(&mut self, ex: &mut Exec) {
+        let mut bad = vec![];
+        for (i, slot, buf) in &mut self.kept {
+            let cap = buf.v.capacity();
+            let bytes: Vec<u8> = unsafe { std::slice::from_raw_parts(buf.v.as_ptr(), cap) }.to_vec();
+            if bytes.iter().any(|b| *b != 0xEE) {
+                bad.push((*i, *slot, bytes));
+            }
+        }
+        for (i, slot, bytes) in bad {
+            if !self.ops[i].reported {
+                ex.fail(
+                    "C01:returned-op-still-in-kernel",
+                    format!("op {i} (Rd, slot {slot}): push handed the operation back to the caller with an error, yet the kernel later wrote {bytes:?} into its buffer: the op was in flight although buffer and descriptor had been released to the caller"),
+                );
+                self.ops[i].reported = true;
+            }
         }
     }
 
@@ -774,7 +799,11 @@ impl World {
                 return "ok | -".into();
             }
             ["tok", steps, neighbour] => {
-                let out = rt::run_token_case(ex, self.drv, self.cap, steps, *neighbour == "1");
+                let out = rt::run_token_case(ex, self.drv, self.cap, steps, *neighbour == "1", "c");
+                return format!("{out} | -");
+            }
+            ["tok", steps, neighbour, nest] => {
+                let out = rt::run_token_case(ex, self.drv, self.cap, steps, *neighbour == "1", nest);
                 return format!("{out} | -");
             }
             ["push", k, s] => self.push(ex, k, s),
@@ -823,6 +852,7 @@ impl World {
                 }
                 // give the kernel's task work a chance to run
                 std::thread::sleep(Duration::from_micros(300));
+                self.check_kept(ex);
                 ex.tag("ev:ready");
                 "ok".into()
             }
@@ -1184,7 +1214,17 @@ impl World {
                         self.ops.push(rec);
                         out = format!("ready:{}", show_res(&res, kind));
                         self.handed_back(ex, i, &res);
-                        with_phase(PH_HARNESS, || disp_rd(self, ex, i, &res, op));
+                        if res.is_err() {
+                            // `push` says the op never went to the OS and gives buffer and descriptor back: keep the
+                            // buffer alive, canary-filled, and watch it
+                            let mut buf = with_phase(PH_HARNESS, || op.into_inner());
+                            for b in buf.as_uninit().iter_mut() {
+                                b.write(0xEE);
+                            }
+                            self.kept.push((i, s, buf));
+                        } else {
+                            with_phase(PH_HARNESS, || disp_rd(self, ex, i, &res, op));
+                        }
                     }
                 }
             }
@@ -1332,6 +1372,7 @@ impl World {
 
     /// implementation-only monitors evaluated after every line
     fn monitors(&mut self, ex: &mut Exec) {
+        self.check_kept(ex);
         let iour = self.iour();
         let alive = self.p.is_some();
         let polls = self.polls;
@@ -1430,6 +1471,7 @@ impl World {
 
     /// end of case: release everything, then every op must be released exactly once or handed back
     fn finish(&mut self, ex: &mut Exec) {
+        self.check_kept(ex);
         if self.skip {
             // nothing was executed after the refused line; fall through to the clean-up
         }
@@ -1545,8 +1587,13 @@ pub fn worker_main() {
 struct Worker {
     child: std::process::Child,
     stdin: std::process::ChildStdin,
-    stdout: std::io::BufReader<std::process::ChildStdout>,
+    /// lines of the worker's stdout, forwarded by a reader thread (`None` = end of file), so that the parent can give
+    /// up on a worker that neither answers nor dies
+    rx: mpsc::Receiver<Option<String>>,
 }
+
+/// longest silence tolerated from a worker inside one case
+const WORKER_WATCHDOG: Duration = Duration::from_secs(20);
 
 fn spawn_worker() -> Worker {
     let mut child = std::process::Command::new(std::env::current_exe().unwrap())
@@ -1558,7 +1605,22 @@ fn spawn_worker() -> Worker {
         .expect("spawn worker");
     let stdin = child.stdin.take().unwrap();
     let stdout = std::io::BufReader::new(child.stdout.take().unwrap());
-    Worker { child, stdin, stdout }
+    let (tx, rx) = mpsc::channel();
+    std::thread::spawn(move || {
+        use std::io::BufRead;
+        for l in stdout.lines() {
+            match l {
+                Ok(l) => {
+                    if tx.send(Some(l)).is_err() {
+                        return;
+                    }
+                }
+                Err(_) => break,
+            }
+        }
+        let _ = tx.send(None);
+    });
+    Worker { child, stdin, rx }
 }
 
 thread_local! {
@@ -1567,7 +1629,7 @@ thread_local! {
 
 /// parent side: run the case in the worker; a worker that dies is a memory error of the code under test
 pub fn exec_isolated(case: &Case) -> Exec {
-    use std::io::{BufRead, Write};
+    use std::io::Write;
     WORKER.with(|cell| {
         let mut slot = cell.borrow_mut();
         if slot.is_none() {
@@ -1583,15 +1645,19 @@ pub fn exec_isolated(case: &Case) -> Exec {
         msg.push_str("#end\n");
         let sent = w.stdin.write_all(msg.as_bytes()).and_then(|_| w.stdin.flush()).is_ok();
         let mut done = false;
+        let mut hung = false;
         if sent {
-            let mut line = String::new();
             loop {
-                line.clear();
-                match w.stdout.read_line(&mut line) {
-                    Ok(0) | Err(_) => break,
-                    Ok(_) => {}
-                }
-                let l = line.trim_end_matches('\n');
+                let line = match w.rx.recv_timeout(WORKER_WATCHDOG) {
+                    Ok(Some(l)) => l,
+                    Ok(None) | Err(mpsc::RecvTimeoutError::Disconnected) => break,
+                    Err(mpsc::RecvTimeoutError::Timeout) => {
+                        hung = true;
+                        let _ = w.child.kill();
+                        break;
+                    }
+                };
+                let l = line.as_str();
                 if l == "#done" {
                     done = true;
                     break;
@@ -1609,21 +1675,22 @@ pub fn exec_isolated(case: &Case) -> Exec {
         if !done {
             // the worker died in the middle of this case
             let status = w.child.wait().map(|s| format!("{s}")).unwrap_or_else(|_| "unknown".into());
+            let status = if hung { format!("killed by the harness after {} s without an answer: the code under test hangs", WORKER_WATCHDOG.as_secs()) } else { status };
             *slot = None;
             let at = ex.out.len();
             let line = case.lines.get(at).cloned().unwrap_or_default();
             while ex.out.len() < case.lines.len() {
-                ex.out.push("crash".into());
+                ex.out.push(if hung { "hang".into() } else { "crash".into() });
             }
             let poll_cancel = case.lines.first().map(|l| l.starts_with("cfg poll")).unwrap_or(false)
                 && case.lines.iter().any(|l| l.starts_with("cancel") || l.starts_with("tcancel") || l.starts_with("ccancel"));
-            let sig = if poll_cancel { "C01:stale-poller-key" } else { "C01:crash" };
+            let sig = if hung { "C01:hang" } else if poll_cancel { "C01:stale-poller-key" } else { "C01:crash" };
             ex.fail(
                 sig,
                 format!(
-                    "the process executing the case died ({status}) at line {} `{line}`: memory error in the code under test{}",
+                    "the process executing the case died ({status}) at line {} `{line}`: memory error / hang in the code under test{}",
                     at + 1,
-                    if poll_cancel { " (polling driver after a cancel: a readiness event dereferences the key the poller carries as user data)" } else { "" }
+                    if poll_cancel && !hung { " (polling driver after a cancel: a readiness event dereferences the key the poller carries as user data)" } else { "" }
                 ),
             );
             ex.nontrivial = true;
@@ -1669,6 +1736,9 @@ pub mod rt {
     //!   X  the controller fires the token while the future sleeps
     //!   s  sleep 1 ms
     //! `neighbour = 1`: a second task, NOT registered with the token, waits on its own never-ready socket under a timeout.
+    //! `nest` (4th word, default `c`): the combinators around the future, innermost first — `c` = `with_cancel(token)`,
+    //! `p` = `with_personality(a personality registered with the runtime; 0 when the driver has none)`; e.g. `pc` =
+    //! `fut.with_personality(p).with_cancel(token)`. Exactly one `c`.
     //! Output: the result of every op step (`c` cancelled, `ok:n`, `t` timed out, `e:errno`), then ` n:<t|c|..>`.
     use std::{cell::Cell, io::Write as _, os::fd::OwnedFd, rc::Rc, sync::Arc, time::Duration};
 
@@ -1700,7 +1770,11 @@ pub mod rt {
         }
     }
 
-    pub fn run_token_case(ex: &mut Exec, drv: DriverType, cap: u32, steps: &str, neighbour: bool) -> String {
+    pub fn run_token_case(ex: &mut Exec, drv: DriverType, cap: u32, steps: &str, neighbour: bool, nest: &str) -> String {
+        if nest.chars().filter(|c| *c == 'c').count() != 1 || nest.chars().any(|c| c != 'c' && c != 'p') {
+            return "bad-op".into();
+        }
+        let nest = nest.to_string();
         let mut pb = ProactorBuilder::new();
         pb.driver_type(drv).capacity(cap);
         let rt = match Runtime::builder().with_proactor(pb).build() {
@@ -1788,7 +1862,15 @@ pub mod rt {
                     (outs, fired_at)
                 }
             };
-            let (outs, fired_at) = fut.with_cancel(tok.clone()).await;
+            let personality = Runtime::with_current(|r| r.register_personality()).unwrap_or(0);
+            let mut wrapped: std::pin::Pin<Box<dyn std::future::Future<Output = (Vec<String>, Vec<bool>)>>> = Box::pin(fut);
+            for ch in nest.chars() {
+                wrapped = if ch == 'c' { Box::pin(wrapped.with_cancel(tok.clone())) } else { Box::pin(wrapped.with_personality(personality)) };
+            }
+            let (outs, fired_at) = wrapped.await;
+            if personality != 0 {
+                let _ = Runtime::with_current(|r| r.unregister_personality(personality));
+            }
             req.set(true);
             let _ = ctl.await;
             let nres = match nb {
@@ -1823,6 +1905,7 @@ pub mod rt {
             ex.fail("C05:neighbour-cancelled", format!("`{}`: the receive of a task that is not registered with the token finished with a cancellation error", steps.join(",")));
         }
         ex.tag("rt:token-case");
+        ex.tag(format!("rt:nest:{nest}"));
         format!("{} n:{nres}", outs.join(","))
     }
 }
